@@ -180,6 +180,21 @@ class GeomSystem(System):
             confs = [v for v in vals if v <= 1 - 2.0**-30]
             checked_w = {}
             checked_d = {}
+            # every class of the family derives the same geometry from (confidence, error_rate)
+            grid = [0.999, 0.99, 0.9, 0.75, 0.5, 0.3, 0.1, 0.05, 0.01, 0.002]
+            for conf in grid:
+                for err in grid:
+                    base = CountMinSketch(confidence=conf, error_rate=err)
+                    for sub in (CountMeanSketch, CountMeanMinSketch, HeavyHitters, StreamThreshold):
+                        evals += 1
+                        try:
+                            t = sub(confidence=conf, error_rate=err)
+                            got = (t.width, t.depth)
+                        except (Exception, MemoryError) as exc:  # noqa: BLE001
+                            got = f"{type(exc).__name__}: {exc}"[:80]
+                        if got != (base.width, base.depth):
+                            bad("geom.cms_subclass_same_geometry", {"confidence": conf, "error_rate": err, "cls": sub.__name__,
+                                                                    "obs": got, "expected": [base.width, base.depth]})
             for err in errs:
                 for conf in (confs if cfg["tier"] == "thorough" else confs[:: max(1, len(confs) // 40)]):
                     evals += 1
@@ -204,11 +219,6 @@ class GeomSystem(System):
                         bad("geom.cms_width_honours_error_rate", {**where, "2/width": float(Fraction(2, w))})
                     if (1 - Fraction(1, 2**d)) * TOL < Fraction(conf):
                         bad("geom.cms_depth_honours_confidence", {**where, "1-2^-depth": float(1 - Fraction(1, 2**d))})
-                    if (evals % 97 == 0 or len(checked_w) < 40) and w * d <= 65536:
-                        for sub in (CountMeanSketch, CountMeanMinSketch, HeavyHitters, StreamThreshold):
-                            t = sub(confidence=conf, error_rate=err)
-                            if (t.width, t.depth) != (w, d):
-                                bad("geom.cms_subclass_same_geometry", {**where, "cls": sub.__name__, "obs": [t.width, t.depth]})
                     if w * d <= 4096:
                         s2 = CountMinSketch.frombytes(bytes(s))
                         if (s2.width, s2.depth) != (w, d):
